@@ -270,7 +270,10 @@ func (o *OAuth2) End(w http.ResponseWriter, r *http.Request) error {
 				r = r.WithContext(context.WithValue(r.Context(), authboss.CTXKeyValues, RMTrue{}))
 			}
 		case FormValueOAuth2Redir:
-			redirect = v
+			// same open redirect guard as the redirector applies
+			if authboss.IsLocalRedirect(v) {
+				redirect = v
+			}
 		default:
 			query.Set(k, v)
 		}
